@@ -266,7 +266,7 @@ pub fn run(eng: &mut Engine) {
         PartCfg::new(
             "scenarios",
             "traffic that keeps objects undecodable: (cache) packets of an FDT-only object whose FDT never comes, N then 3N more packets; (blocks) first block withheld while later blocks complete; (errors) many failing objects vs max_objects_error after every push; (cleanup) stalled objects + FDT instance ids that never complete + idle sessions, residual heap after timeouts+cleanup at scale 1 vs scale 4; limits 4 KiB..300 KiB, timeouts 2-8 ms; non-trivial = the configured limit was reached / stalled state existed; distinct by scenario",
-            tier.pick(3000, 60_000),
+            tier.pick(8000, 120_000),
         )
         .limit_s(120),
         scenario_strategy,
